@@ -188,7 +188,7 @@ func loadDeb(archive *Ar) (*Deb, error) {
 	if !ok {
 		return nil, fmt.Errorf("Archive contains no binary version member!")
 	}
-	reader := bufio.NewReader(member.Data)
+	reader := bufio.NewReader(io.NewSectionReader(member.Data, 0, member.Data.Size()))
 	version, err := reader.ReadString('\n')
 	if err != nil {
 		return nil, err
